@@ -75,7 +75,7 @@ Record stats := mkStats {
 Definition stats0 : stats := mkStats 0 0 0 0 0 0 0 0 0 0.
 
 (* ---------- the Checkpointer in memory, and the two stores ---------- *)
-Record mem := mkMem {
+Record ckp := mkMem {
   m_st : state;        (* expectedSeqs / processedSeqs / idAndRevLookup *)
   m_lrev : N;          (* lastLocalCheckpointRevID *)
   m_rrev : N;          (* lastRemoteCheckpointRevID *)
@@ -83,8 +83,8 @@ Record mem := mkMem {
   m_hash : N;          (* configHash *)
   m_stats : stats
 }.
-Record world := mkW { w_mem : mem; w_loc : store; w_rem : store }.
-Definition mem0 : mem := mkMem init 0 0 zero_seq 0 stats0.
+Record world := mkW { w_mem : ckp; w_loc : store; w_rem : store }.
+Definition mem0 : ckp := mkMem init 0 0 zero_seq 0 stats0.
 Definition winit : world := mkW mem0 None None.
 
 Inductive pop :=
@@ -112,7 +112,7 @@ Definition bump (o : op) (s : stats) : stats :=
   | Tick => s
   end.
 
-Definition set_mem_st (m : mem) (st : state) (s : stats) : mem :=
+Definition set_mem_st (m : ckp) (st : state) (s : stats) : ckp :=
   mkMem st (m_lrev m) (m_rrev m) (m_last m) (m_hash m) s.
 
 (* CheckpointNow.  Returns the world and the value _updateCheckpointLists handed to _setCheckpoints. *)
@@ -186,12 +186,12 @@ Definition touch (d : store) : store :=
 
 (* _calculateSafeProcessedSeq: the head of the processed prefix of the sorted expected list, else the last
    checkpoint; getCheckpointHighSeq prints it unless its Seq is zero *)
-Definition safe_processed (m : mem) : seqid :=
+Definition safe_processed (m : ckp) : seqid :=
   match last_opt (fst (span_proc (sort (expected (m_st m))) (processed (m_st m)))) with
   | Some x => x
   | None => m_last m
   end.
-Definition high_seq (m : mem) : option seqid :=
+Definition high_seq (m : ckp) : option seqid :=
   let x := safe_processed m in if 0 <? Seq x then Some x else None.
 
 (* one call: new world, the value a tick handed to _setCheckpoints, the status text of a PStatus *)
@@ -310,3 +310,7 @@ Definition count_known (ops : list pop) : N :=
   fold_left (fun n o => match o with PL (Known l) => n + len l | _ => n end) ops 0.
 Definition count_proc (ops : list pop) : N :=
   fold_left (fun n o => match o with PL (Processed _) | PL (ProcessedDoc _ _) => n + 1 | _ => n end) ops 0.
+
+(* the world after a history *)
+Definition pexec (thr : N) (w : world) (ops : list pop) : world :=
+  fold_left (fun w o => fst (fst (pstep thr w o))) ops w.
